@@ -31,6 +31,17 @@ type delta struct {
 	Samples    []json.RawMessage `json:"s,omitempty"`
 	Violations []wireViolation   `json:"v,omitempty"`
 	Capped     []string          `json:"cap,omitempty"`
+	Restart    bool              `json:"restart,omitempty"`
+}
+
+// RestartWorker asks for this worker process to be replaced after the current
+// case (its state is no longer trustworthy, e.g. a runaway goroutine).
+func (r *Run) RestartWorker() {
+	if worker != nil {
+		worker.mu.Lock()
+		worker.d.Restart = true
+		worker.mu.Unlock()
+	}
 }
 
 type wireViolation struct {
@@ -104,6 +115,10 @@ func (r *Run) ParIsolated(n int, f func(i int), crash func(i int, what, detail s
 				d, status := wp.run(i)
 				if status == "" {
 					r.merge(d)
+					if d.Restart {
+						wp.kill()
+						wp = nil
+					}
 					continue
 				}
 				detail := wp.stderrTail()
@@ -249,6 +264,12 @@ func (wp *workerProc) stderrTail() string {
 	return strings.Join(lines, "\n")
 }
 
+func (wp *workerProc) kill() {
+	wp.cmd.Process.Kill()
+	wp.in.Close()
+	wp.cmd.Wait()
+}
+
 func (wp *workerProc) stop() {
 	wp.in.Close()
 	done := make(chan struct{})
@@ -291,6 +312,9 @@ func (r *Run) serve(n int, f func(i int)) {
 		out.Write(bytes.ReplaceAll(data, []byte("\n"), []byte(" ")))
 		out.WriteByte('\n')
 		out.Flush()
+		if worker.d.Restart {
+			os.Exit(0)
+		}
 	}
 }
 
